@@ -35,6 +35,35 @@ Theorem one_mapping_per_option : forall e b,
 Proof. exact from_builder_mappings. Qed.
 Print Assumptions one_mapping_per_option.
 
+(* for every builder FromAST derives (field names distinct): the converter has exactly one mapping per option,
+   in option order; each is guarded by the guards of its single assignment (non-nil path, non-empty string,
+   non-empty array, different from the default) and carries one argument read from the field *)
+Theorem converter_shape_of_derived_builders : forall ss bs b e,
+  from_ast ss = Ok bs -> In b bs ->
+  (forall a dh fs, resolve_to_type (res_fuel ss) ss (o_type (b_for b)) = Ok (TStruct a dh fs) -> NoDup (map f_name fs)) ->
+  exists fs', Forall2 (fun f o => struct_field_to_option f = Ok o) fs' (b_options b) /\
+              cv_mappings (from_builder e b) = derived_mappings e b fs' (b_options b).
+Proof. exact from_ast_converter_shape_proof. Qed.
+Print Assumptions converter_shape_of_derived_builders.
+
+(* executing the emitted calls (C09 option_sequences): a field holds the value of the call of its option, a
+   field whose option was not emitted holds what the constructor left there *)
+Theorem rebuilt_fields_follow_calls : forall e b calls st stn,
+  derived_builder b -> is_struct_val (bs_obj st) = true ->
+  go_calls e b st calls = GOk stn ->
+  forall f o, In o (b_options b) -> struct_field_to_option f = Ok o -> f_name f <> "" ->
+    match last_call (f_name f) calls with
+    | None => obj_field (bs_obj stn) (f_name f) = obj_field (bs_obj st) (f_name f)
+    | Some [av] =>
+        match arg_value e [(f_name f, av)] (mkArg (f_name f) (f_type f)) with
+        | GOk (Some v) => obj_field (bs_obj stn) (f_name f) = Some (maybe_ptr (f_type f) v)
+        | _ => True
+        end
+    | Some _ => True
+    end.
+Proof. exact go_sequence_last_write_proof. Qed.
+Print Assumptions rebuilt_fields_follow_calls.
+
 (* the call emitted for the option FromAST derives for a field of plain type: executed, it stores the value
    the converter read from that field (x; printed dereferenced as y when the field is a pointer) and leaves
    every other field alone *)
